@@ -269,6 +269,8 @@ func init() {
 			})
 			c.Fact("preflight.servePOST_default_version", def)
 		}
+		// ---- how `params` is decoded: the member each extractor reads (json tags) and the decoder it calls
+		preflightParamsDecoding(c, w)
 		w("end Generated.Preflight\n")
 		c.Lean["PreflightGen"] = b.String()
 
@@ -595,4 +597,205 @@ func gateOrder(c *Ctx, fd *ast.FuncDecl) []string {
 
 func statusName(c *Ctx, e ast.Expr) string {
 	return strings.TrimPrefix(c.Src(e), "http.Status")
+}
+
+// preflightParamsDecoding regenerates what the model needs to decode `params` the way the SDK does: for every case of
+// extractName's switch the json name of the field it returns (Mcp-Name is compared with that member), the json names
+// of the `arguments` and `_meta` members read by validateParamHeaders / generateParamHeaders / extractRequestMeta, the
+// protocol-version key of _meta; and, as structural facts, which decoder every one of these functions calls (the SDK's
+// case-sensitive internal/json, not encoding/json, whose member matching is case-insensitive).
+func preflightParamsDecoding(c *Ctx, w func(format string, a ...any)) {
+	// group -> the distinct decoder entry points its functions call (sorted). The `arguments` group is the two functions
+	// that read params.arguments plus the helper they may share (decodeArguments, fix preflight-F31).
+	decoders := map[string][]string{}
+	groups := []struct {
+		name string
+		fns  []string
+	}{{"extractName", []string{"extractName"}}, {"extractRequestMeta", []string{"extractRequestMeta"}},
+		{"arguments", []string{"validateParamHeaders", "generateParamHeaders", "decodeArguments"}}, {"lookupArgument", []string{"lookupArgument"}}}
+	for _, grp := range groups {
+		set := map[string]bool{}
+		for i, fn := range grp.fns {
+			fd := c.Func("mcp", "", fn)
+			if fd == nil {
+				if i == 0 {
+					c.Errf("preflight: %s not found", fn)
+				}
+				continue
+			}
+			ast.Inspect(fd.Body, func(n ast.Node) bool {
+				if ce, ok := n.(*ast.CallExpr); ok {
+					if se, ok := ce.Fun.(*ast.SelectorExpr); ok && (se.Sel.Name == "Unmarshal" || se.Sel.Name == "NewDecoder") {
+						set[c.Src(ce.Fun)] = true
+					}
+				}
+				return true
+			})
+		}
+		calls := []string{}
+		for k := range set {
+			calls = append(calls, k)
+		}
+		sort.Strings(calls)
+		decoders[grp.name] = calls
+	}
+	c.Fact("preflight.params_decoders", decoders)
+
+	// the struct type of a variable declared `var <name> T` in one of the given blocks (innermost first)
+	varStruct := func(name string, blocks ...ast.Node) (*ast.StructType, string) {
+		for _, blk := range blocks {
+			var st *ast.StructType
+			tn := ""
+			ast.Inspect(blk, func(n ast.Node) bool {
+				ds, ok := n.(*ast.DeclStmt)
+				if !ok || st != nil {
+					return st == nil
+				}
+				gd, ok := ds.Decl.(*ast.GenDecl)
+				if !ok || gd.Tok != token.VAR {
+					return true
+				}
+				for _, sp := range gd.Specs {
+					vs := sp.(*ast.ValueSpec)
+					for _, id := range vs.Names {
+						if id.Name != name || vs.Type == nil {
+							continue
+						}
+						switch t := vs.Type.(type) {
+						case *ast.Ident:
+							st, tn = c.namedStruct("mcp", t.Name), t.Name
+						case *ast.StructType:
+							st, tn = t, "struct"
+						}
+					}
+				}
+				return true
+			})
+			if st != nil {
+				return st, tn
+			}
+		}
+		return nil, ""
+	}
+	jsonNameOf := func(st *ast.StructType, goField string) (string, string, bool) {
+		for _, f := range c.structFields(st) {
+			if f.Go == goField {
+				return f.JSON, f.Type, true
+			}
+		}
+		return "", "", false
+	}
+
+	// extractName: case list -> returned field -> json name
+	type nm struct{ method, key, from string }
+	var rows []nm
+	if fd := c.Func("mcp", "", "extractName"); fd != nil {
+		ast.Inspect(fd.Body, func(n ast.Node) bool {
+			cc, ok := n.(*ast.CaseClause)
+			if !ok {
+				return true
+			}
+			var methods []string
+			for _, x := range cc.List {
+				if v, ok := c.Const("mcp", x); ok {
+					methods = append(methods, strings.Trim(v.ExactString(), `"`))
+				}
+			}
+			for _, st := range cc.Body {
+				ast.Inspect(st, func(m ast.Node) bool {
+					rs, ok := m.(*ast.ReturnStmt)
+					if !ok || len(rs.Results) != 2 || c.Src(rs.Results[1]) != "true" {
+						return true
+					}
+					se, ok := rs.Results[0].(*ast.SelectorExpr)
+					if !ok {
+						c.Errf("preflight: extractName returns %s (not a field of the decoded params)", c.Src(rs.Results[0]))
+						return true
+					}
+					v, ok := se.X.(*ast.Ident)
+					if !ok {
+						c.Errf("preflight: extractName returns %s", c.Src(se))
+						return true
+					}
+					stt, tn := varStruct(v.Name, cc, fd.Body)
+					if stt == nil {
+						c.Errf("preflight: extractName: type of %s not found", v.Name)
+						return true
+					}
+					key, _, ok := jsonNameOf(stt, se.Sel.Name)
+					if !ok {
+						c.Errf("preflight: extractName: %s has no field %s", tn, se.Sel.Name)
+						return true
+					}
+					for _, me := range methods {
+						rows = append(rows, nm{me, key, "field " + se.Sel.Name})
+					}
+					return true
+				})
+			}
+			return true
+		})
+	}
+	if len(rows) == 0 {
+		c.Errf("preflight: extractName: no (method, member) rows found")
+	}
+	sort.SliceStable(rows, func(i, j int) bool { return rows[i].method < rows[j].method })
+	w("/-- mcp `extractName`: method ↦ json name of the params member it returns (the value `Mcp-Name` must equal) -/\ndef nameMember : List (List Nat × List Nat) := [")
+	var fieldFacts []string
+	for i, r := range rows {
+		if i > 0 {
+			w(", ")
+		}
+		w("\n  (%s, %s) /- %s: %s = %q -/", leanBytes(r.method), leanBytes(r.key), r.method, r.from, r.key)
+		fieldFacts = append(fieldFacts, r.method+":"+r.key)
+	}
+	w("]\n")
+	c.Fact("preflight.extractName_members", fieldFacts)
+
+	// `arguments`: the local struct `raw` of validateParamHeaders / generateParamHeaders, or of the helper they share
+	argKey := ""
+	for _, fn := range []string{"validateParamHeaders", "generateParamHeaders", "decodeArguments"} {
+		fd := c.Func("mcp", "", fn)
+		if fd == nil {
+			continue
+		}
+		st, _ := varStruct("raw", fd.Body)
+		if st == nil {
+			continue
+		}
+		k, _, ok := jsonNameOf(st, "Arguments")
+		if !ok {
+			c.Errf("preflight: %s: raw has no field Arguments", fn)
+			continue
+		}
+		if argKey != "" && k != argKey {
+			c.Errf("preflight: %s reads member %q, others read %q", fn, k, argKey)
+		}
+		argKey = k
+	}
+	if argKey == "" {
+		c.Errf("preflight: no `var raw struct{ Arguments ... }` in validateParamHeaders / generateParamHeaders / decodeArguments")
+	}
+	w("/-- json name of the member `validateParamHeaders` / `generateParamHeaders` decode the arguments from -/\ndef memberArguments : List Nat := %s /- %q -/\n", leanBytes(argKey), argKey)
+
+	// `_meta`: the local struct of extractRequestMeta
+	metaKey := ""
+	if fd := c.Func("mcp", "", "extractRequestMeta"); fd != nil {
+		if st, _ := varStruct("meta", fd.Body); st != nil {
+			k, ty, ok := jsonNameOf(st, "Meta")
+			if ok {
+				metaKey = k
+				c.Fact("preflight.meta_field_type", ty)
+			}
+		}
+	}
+	if metaKey == "" {
+		c.Errf("preflight: extractRequestMeta: the Meta field of `var meta struct{...}` not found")
+	}
+	w("/-- json name of the member `extractRequestMeta` decodes -/\ndef memberMeta : List Nat := %s /- %q -/\n", leanBytes(metaKey), metaKey)
+	if s, ok := c.ConstString("mcp", "MetaKeyProtocolVersion"); ok {
+		w("/-- mcp `MetaKeyProtocolVersion` = %s -/\ndef metaKeyProtocolVersion : List Nat := %s\n", strconv.Quote(s), leanBytes(s))
+	} else {
+		c.Errf("preflight: MetaKeyProtocolVersion is not a string constant")
+	}
 }
